@@ -529,6 +529,7 @@ def projs(n):
 class Ev(object):
     def __init__(self, files, keep, tables, subst=None):
         self.files, self.keep, self.tables, self.subst = files, keep, tables, subst or {}
+        self.alias_fns = {}
         self.dag = K.Dag()
         self.blen = {}            # node id -> static length of a list-valued node
         self.usesM = False
@@ -855,6 +856,35 @@ class Ev(object):
             return ("rec", T[2], [(f, self.build(t, it)) for f, t in T[3]], T[4])
         raise TErr("cannot build a %s" % (T,))
 
+    def unconcat(self, b):
+        """the values whose byte images make up b (b = toLe64 x0 ++ toLeBytes x1 16 ++ …), or None"""
+        nd = self.dag.nodes[b[1]]
+        if nd[0] != "app":
+            return None
+        parts = [("n", a) for a in nd[2]] if re.match(r"^\{0\}( \+\+ \{\d+\})+$", nd[1]) else [b]
+        out = []
+        for p in parts:
+            pn = self.dag.nodes[p[1]]
+            if pn[0] == "app" and pn[1] in ("CC.toLe64 {0}", "CC.toLeBytes {0} 16"):
+                out.append(("n", pn[2][0]))
+            else:
+                return None
+        return out
+
+    def repack(self, src, T):
+        """fast paths of a re-packing between 64-bit words and 128-bit vectors; None when they do not apply"""
+        dst = self.tatoms(T, [])
+        st = [self.ty(x) for x in src]
+        if st and all(s == "BitVec 64" for s in st) and all(d == V for d in dst) and len(st) == 2 * len(dst):
+            parts = [self.app("{0} ++ {1}", [src[2 * i + 1], src[2 * i]], V) for i in range(len(dst))]
+            return self.build(T, iter(parts))
+        if st and all(s == V for s in st) and all(d == "BitVec 64" for d in dst) and len(dst) == 2 * len(st):
+            parts = []
+            for x in src:
+                parts += [self.app("qword {0} 0", [x], "BitVec 64"), self.app("qword {0} 1", [x], "BitVec 64")]
+            return self.build(T, iter(parts))
+        return None
+
     def transmute(self, v, T):
         if T[0] == "ref":
             T = T[2]
@@ -915,6 +945,11 @@ class Ev(object):
             d = dict(v[1][3])
             if str(key) not in d:
                 raise TErr("no field %s in union %s" % (key, v[1][2]))
+            src = self.unconcat(v[2])
+            if src is not None:
+                r = self.repack(src, d[str(key)])
+                if r is not None:
+                    return r
             return self.from_bytes(v[2], 0, d[str(key)])
         if v[0] in ("tup", "arr"):
             i = int(key)
@@ -996,9 +1031,11 @@ class Ev(object):
         a, b = self.val(a), self.val(b)
         if a[0] == "int" and b[0] == "int":
             x, y = a[1], b[1]
-            r = {"+": x + y, "-": x - y, "*": x * y, "^": x ^ y, "&": x & y, "|": x | y,
-                 "<<": x << y if y >= 0 else None, ">>": x >> y if y >= 0 else None,
-                 "/": x // y if y else None, "%": x % y if y else None}.get(op)
+            fns = {"+": lambda: x + y, "-": lambda: x - y, "*": lambda: x * y, "^": lambda: x ^ y, "&": lambda: x & y,
+                   "|": lambda: x | y, "<<": lambda: x << y if 0 <= y < 64 else None,
+                   ">>": lambda: x >> y if 0 <= y < 64 else None, "/": lambda: x // y if y else None,
+                   "%": lambda: x % y if y else None}
+            r = fns[op]() if op in fns else None
             if r is None or r < 0 or r >= 1 << 64:
                 raise TErr("constant arithmetic %d %s %d leaves the u64 range" % (x, op, y))
             return ("int", r)
@@ -1254,7 +1291,7 @@ class Ev(object):
                 if len(T[3]) != len(argx) or any(not f.isdigit() for f, _ in T[3]):
                     raise TErr("constructor %s: %d arguments for %d fields" % (segs[0], len(argx), len(T[3])))
                 return ("rec", segs[0], [(f, self.val(self.ev(x, env, ctx, t))) for (f, t), x in zip(T[3], argx)], T[4])
-            return self.call_fn(self.find_fn(segs[0]), [("expr", a) for a in argx], env, ctx)
+            return self.call_fn(self.find_fn(self.alias_fns.get(segs[0], segs[0])), [("expr", a) for a in argx], env, ctx)
         if segs[-2:] == ["ptr", "read_unaligned"] and len(argx) == 1:
             p = self.val(self.ev(argx[0], env, ctx))
             if p[0] != "ptr":
@@ -1774,6 +1811,7 @@ def translate(files, spec, registry):
     keep.update(spec.get("ext", {}))
     ev = Ev(files, keep, spec.get("tables", {}), spec.get("subst"))
     ev.loopname = spec["lean"]
+    ev.alias_fns = spec.get("alias", {})
     f = ev.find_fn(spec["fn"], spec.get("owner"))
     keep.pop(ev.fn_key(f), None)
     ctx = ev.fn_ctx(f)
@@ -1874,6 +1912,33 @@ def _skein_block(nb):
 FAMILIES.append(dict(fam="skein", files=[SKEIN_LIB], specs=_skein_block(32) + _skein_block(64) + _skein_block(128)))
 
 
+GR_ALIAS = {"init512": "init512_impl", "tf512": "tf512_impl", "of512": "of512_impl",
+            "init1024": "init1024_impl", "tf1024": "tf1024_impl", "of1024": "of1024_impl"}
+_gr = lambda fn, **kw: dict(lean="groestl_" + fn, fn=fn, **kw)
+_grc = lambda n, fn: dict(lean="groestl_compressor%d_%s" % (n, fn), fn=fn, owner="Compressor%d" % n, alias=GR_ALIAS)
+FAMILIES.append(dict(fam="groestl", files=[GR_COMP, GR_LIB], specs=[
+    _gr("mul2"), _gr("submix"), _gr("transpose_a"), _gr("transpose_b"), _gr("transpose_b_inv"), _gr("transpose_o_b"),
+    _gr("transpose_o_b_inv"), _gr("round"), _gr("rounds_p_q"), _gr("tf512_impl"), _gr("of512_impl"), _gr("init512_impl"),
+    _gr("transpose"), _gr("transpose_inv"), _gr("rounds_p"), _gr("rounds_q"), _gr("init1024_impl"), _gr("tf1024_impl"),
+    _gr("of1024_impl"),
+    _grc(512, "new"), _grc(512, "input"), _grc(512, "finalize_dirty"),
+    _grc(1024, "new"), _grc(1024, "input"), _grc(1024, "finalize_dirty"),
+    dict(lean="groestl_wrappers", kind="wrappers", file=GR_COMP, mods=("aes", "ssse3", "sse2", "autodetect")),
+]))
+
+
+def wrappers_inventory(files, spec):
+    """the functions of the dispatch modules: (module, fn, body text) — each must be nothing but a call of `<fn>_impl`"""
+    f = [x for x in files if x.rel == spec["file"]][0]
+    rows = []
+    for fn in f.fns:
+        if fn.err is None and fn.mods and fn.mods[-1] in spec["mods"] and fn.impl is None:
+            body = " ".join(x.s for x in f.toks[fn.body[0]:fn.body[1]])
+            rows.append("(%s, %s, %s)" % (K._lean_str("::".join(fn.mods)), K._lean_str(fn.name), K._lean_str(body)))
+    return "/-- %s: the functions of the modules %s (module, fn, body) -/\ndef %s : List (String × String × String) := [\n  %s]" % (
+        spec["file"], ", ".join(spec["mods"]), spec["lean"], ",\n  ".join(rows))
+
+
 def hashc_inventory(repo="/repo"):
     out = []
     for fam in FAMILIES:
@@ -1888,7 +1953,10 @@ def hashc_inventory(repo="/repo"):
             try:
                 if files is None:
                     raise TErr("source file missing")
-                defs.append((spec["lean"], translate(files, spec, registry)))
+                if spec.get("kind") == "wrappers":
+                    defs.append((spec["lean"], wrappers_inventory(files, spec)))
+                else:
+                    defs.append((spec["lean"], translate(files, spec, registry)))
             except TErr as e:
                 msg = "%s: %s" % (spec["lean"], e)
                 errors.append(msg)
